@@ -7,6 +7,9 @@ Tie: translator extract/scalars.py (Generated/Scalars.lean rewritten on every ru
                           vs the real closure, on the hostile corpus (validates the translator)
   * stdlib-catalogue    : every call-site outcome class observed on the hostile corpus is in extract/catalogue.json
   * load                : real Retort.load vs model `load`, hostile-heavy stream, 3 debug_trail x 2 coercion modes
+  * crown-containers    : real generated model loader vs `Layout.loadModel` (explicit crowns; every modelled container kind at
+                          every dict / list node, 6 modes) - props/c04_crowns.py, which also holds the public-API oracle suite
+                          "every container kind of the corpus at every node of every crown shape"
 Direct oracle (real code only): no load of any generated/hostile datum, for any builtin-supported type and mode,
 ends in anything but a LoadError whose leaves are all LoadErrors.
 """
@@ -18,7 +21,7 @@ from harness.core import Ctx, Driver, InfraError
 
 ID = "C04"
 PROPS_FILE = "AdaptixProofs/Props/C04.lean"
-LEAN_TARGETS = ["AdaptixProofs.Props.C04", "drv_morph"]
+LEAN_TARGETS = ["AdaptixProofs.Props.C04", "drv_morph", "drv_c03"]
 EXTRACT = [scalars.emit]
 CLAIM = {
     "technique": "Lean 4 proof: kernel-checked escape analysis of the scalar loader closures translated from the source on "
@@ -47,7 +50,9 @@ CLAIM = {
     "design_ref": "DESIGN.md §4 C04",
 }
 RULE = ("hostile corpus (~430 data over 40 datum classes) x every scalar closure; generated types (depth<=3) x valid/corrupted/"
-        "hostile data x 6 modes; a case is non-trivial when the real outcome is a LoadError or an escape")
+        "hostile data x 6 modes; 14 crown shapes (dict / list crowns nested to depth 3) x 7 embeddings x every crown node x 66 "
+        "container kinds (mappings, sequences, sets, index-only stdlib objects, user containers) x 6 modes; a case is non-trivial "
+        "when the real outcome is a LoadError or an escape")
 ASSUMPTIONS = [
     "stdlib exception catalogue (extract/catalogue.json) — validated each run: observed call-site outcomes ⊆ catalogue",
     "data are instances of builtin/stdlib classes of the catalogued universe; objects with user-defined dunder methods are user code",
@@ -289,11 +294,26 @@ def run(ctx: Ctx):
     suite_policy_layouts(ctx, ctx.budget(60, 1000))
     set_of_any(ctx, eng)
     class_object_datum(ctx, eng)
+    suite_crowns(ctx)
+
+
+def suite_crowns(ctx: Ctx, with_model=True):
+    """wrong containers (every kind, the wrong subscriptable ones above all) at every node of every crown shape"""
+    from harness.props import c04_crowns
+    c04_crowns.suite_public(ctx)
+    drv = None
+    if with_model and ctx.driver_ok:
+        try:
+            drv = Driver("drv_c03")
+        except InfraError:
+            drv = None
+    c04_crowns.suite_model(ctx, drv, ctx.budget(25, 300))
 
 
 def search(ctx: Ctx):
     eng = morph.Engine(ctx)
     eng.drv = None
+    suite_crowns(ctx, with_model=False)
     suite_scalars(ctx, eng)
     if not ctx.failures:
         suite_containers(ctx, eng, n_specs=600, depth=4)
@@ -327,6 +347,11 @@ def replay(ctx: Ctx, case) -> bool:
         before = len(ctx.failures)
         class_object_datum(ctx, eng)
         return len(ctx.failures) > before
+    if case.get("kind") == "crown-container":
+        from harness.props import c04_crowns
+        st, _detail = c04_crowns.run_case(ctx, case["shape"], case["embedding"], case["node"], case["container"], case["mode"],
+                                          case["strict"])
+        return st == "escape"
     if case.get("kind") == "set-of-any":
         before = len(ctx.failures)
         set_of_any(ctx, eng)
